@@ -392,6 +392,10 @@ def check(ctx):
     r3(ctx)
     r4(ctx, retsets)
     r5(ctx, retsets)
+    from specs import C18
+    with ctx.shared({"C18.R3": ("C09.R6", "a removal that fails (allocation failure while shrinking) leaves the element in the table, so that 'no "
+                                "callback' is the right report")}):
+        C18.r3(ctx, retsets)
     ctx.not_decided("callback ordering relative to other threads (add/remove notify after unlocking)")
     ctx.not_decided("that trie_insert/trie_remove restructure the trie correctly (C02 core)")
 
